@@ -11,6 +11,10 @@ EmitInv(C) (from the property statement; evaluated by an independent wire walker
   F  the emission CNOTs and measure-and-reset operations placed at initialisation are still there (same node, same
      class, same registers)
 
+On circuits with >= 11 photons / emitters (items *two_digit*) the checkers additionally demand that every edge (quantum and
+classical) carries the reg / reg_type of the wire its key names and that edge_dict / node_dict agree with the graph
+(`_ops_on_their_wires`): the moves build their gates from exactly these attributes.
+
 Moves are the real bound methods of EvolutionarySolver / HybridEvolutionarySolver; an exception escaping a move is a
 failure ("every circuit obtained ... by any sequence of moves").
 """
